@@ -26,29 +26,37 @@ def tables : Tables where
   pyConsts := AbiData.pyConsts
   pyTypedefs := AbiData.pyTypedefs
   renamesOk := AbiData.renamesOk
+  aliases := AbiData.aliases
 
 /-- the tables extracted from the current sources are consistent -/
 theorem C18_abi_consistent : check tables = true := by decide
 
 /-! ## What the check means -/
 
+theorem check_core (t : Tables) (h : check t = true) : checkCore t = true := by
+  simp only [check, Bool.and_eq_true] at h
+  exact h.1
+
 /-- the header declares exactly the exported functions, with the same ABI class
 for the return value and every argument -/
 theorem C18_header_matches_exports (t : Tables) (h : check t = true) : t.rust = t.header := by
-  simp only [check, Bool.and_eq_true, beq_iff_eq] at h
+  have h := check_core t h
+  simp only [checkCore, Bool.and_eq_true, beq_iff_eq] at h
   exact h.1.1.1.1.1.1.1.1
 
 /-- same enum values and the same struct layout (field order, classes, alignment) -/
 theorem C18_enum_and_struct (t : Tables) (h : check t = true) :
     t.rustEnum = t.headerEnum ∧ t.rustStruct = t.headerStruct := by
-  simp only [check, Bool.and_eq_true, beq_iff_eq] at h
+  have h := check_core t h
+  simp only [checkCore, Bool.and_eq_true, beq_iff_eq] at h
   exact ⟨h.1.1.1.1.1.1.1.2, h.1.1.1.1.1.1.2⟩
 
 /-- every call in the Go binding names a declared function and passes arguments
 of the declared classes -/
 theorem C18_go_calls_declared (t : Tables) (h : check t = true) :
     ∀ c ∈ t.goCalls, ∃ d ∈ t.header, d.name = c.name ∧ argsCompat d.args c.args = true := by
-  simp only [check, Bool.and_eq_true, beq_iff_eq, List.all_eq_true] at h
+  have h := check_core t h
+  simp only [checkCore, Bool.and_eq_true, beq_iff_eq, List.all_eq_true] at h
   intro c hc
   have := h.1.1.1.1.1.2 c hc
   unfold callOk at this
@@ -64,7 +72,8 @@ and the integer typedefs it declares to cffi have the real width -/
 theorem C18_python_calls_declared (t : Tables) (h : check t = true) :
     (∀ c ∈ t.pyCalls, ∃ d ∈ t.header, d.name = c.1 ∧ d.args.length = c.2) ∧
     (∀ p ∈ t.pyTypedefs, p.1.width = p.2.width) := by
-  simp only [check, Bool.and_eq_true, beq_iff_eq, List.all_eq_true, decide_eq_true_eq] at h
+  have h := check_core t h
+  simp only [checkCore, Bool.and_eq_true, beq_iff_eq, List.all_eq_true, decide_eq_true_eq] at h
   refine ⟨?_, h.1.2⟩
   intro c hc
   have := h.1.1.1.2 c hc
@@ -76,7 +85,14 @@ theorem C18_python_calls_declared (t : Tables) (h : check t = true) :
     exact ⟨d, hm, by simpa using hp, by simpa using this⟩
   · cases this
 
+/-- every named constant a binding exports denotes the header constant of the same name -/
+theorem C18_binding_constants_named (t : Tables) (h : check t = true) : ∀ p ∈ t.aliases, p.1 = p.2 := by
+  simp only [check, Bool.and_eq_true, List.all_eq_true, beq_iff_eq] at h
+  exact h.2
+
 /-- non-vacuity: the check rejects a table in which the header lost a function -/
 example : check { tables with header := tables.header.drop 1 } = false := by decide
 example : check { tables with pyTypedefs := [(.devt, .u32)] } = false := by decide
 example : check { tables with headerEnum := [(0, 1), (1, 2), (2, 3)] } = false := by decide
+example : check { tables with aliases := (0, 1) :: tables.aliases } = false := by decide
+example : tables.aliases ≠ [] := by decide
